@@ -52,7 +52,7 @@ PLAN['C01'] = {
     'technique': 'contract-based deductive verification (Verus) of alloc.rs/lru.rs/reg_tape.rs on mechanically extracted real text; bounded native contract runner for interpreter loops and SsaTape::new',
     'level_text': 'Unbounded proof (all programs, all N in 3..=255, all initial register contents) that register allocation preserves tape semantics, function by function against contracts; the interpreter loops and the graph flattening are outside verifier reach and are covered by labelled bounded stand-ins only.',
     'level_note': 'Trusted: Verus+Z3, the extractor rewrite rules, assume_specification for mem::take and slice::fill, assume(slot_count < u32::MAX); bounded only: VM interpreter per-opcode contract, SsaTape::new contract, N in {1,2}.',
-    'legs': [leg_verus('alloc'), leg_bounded('rev_range'), leg_bounded('interp_point'), leg_bounded('interp_bulk'), leg_bounded('flatten'),
+    'legs': [leg_verus('alloc'), leg_verus('vm'), leg_bounded('rev_range'), leg_bounded('interp_point'), leg_bounded('interp_bulk'), leg_bounded('flatten'),
              leg_bounded('alloc_cex'), leg_bounded('alloc_small_n')],
     'cex': ['alloc_cex', 'flatten', 'interp_point'],
     'explanation': (
@@ -131,7 +131,7 @@ PLAN['C04'] = {
     'technique': 'contract-based deductive verification (Verus) of VmData::simplify/VmWorkspace on real text, through the proved contract of RegisterAllocator::op; Kani full-domain harnesses for the trace hypothesis; bounded native contract runner for value preservation and JIT traces',
     'level_text': 'S1 proved unbounded: for every well-formed parent tape, every trace of the right length without Unknown, every register budget M in 3..=255 and any previous workspace contents, simplify cannot panic (all 26 unwrap/assert/panic sites, 11 overflow and 8 index obligations, and the allocator preconditions call by call) and preserves vars and the output count; the hypothesis `a decided choice is valid at every point of the box` is proved for all f32/intervals by Kani. S3 proved unbounded at the SSA level: whenever the trace is valid for the parent run (the value of every decided clause is bit for bit that of the selected operand), the simplified SSA tape yields exactly the outputs of the parent from any initial environment (simulation invariant `ssim`, one semantic transition lemma per kind of arm, all 51 arms). The bounded contract simplify_sem additionally runs real traces from all four tracing evaluators through simplify and compares values natively.',
     'level_note': 'Trusted: Verus+Z3, Kani/CBMC, extractor rewrite rules (R-orpat, R-iter, R-revnext, R-constdefault, ...). Assumed: parent tape is strict SSA (established by SsaTape::new: bounded leg flatten) and choice_count equals the number of choice clauses. Bounded only: that the traces of the evaluators satisfy the trace hypothesis on whole tapes (per clause it is proved by Kani), JIT traces, (the register tape of the simplified function is proved to compute its SSA tape for the new budget M, from any initial register/memory contents, by the same simulation argument as RegTape::new).',
-    'legs': [leg_verus('alloc'), leg_verus('simplify'), leg_kani('leaf'), leg_bounded('simplify_sem'), leg_bounded('jit_trace')],
+    'legs': [leg_verus('alloc'), leg_verus('simplify'), leg_verus('vm'), leg_kani('leaf'), leg_bounded('simplify_sem'), leg_bounded('jit_trace')],
     'explanation': 'Loop invariant sinv (P1, COV, INJ, P3, Q of DESIGN.md B.3) over (bind, count, allocator allocations, ops, k) plus the LEN equation ops_out.len + live == outputs + count; one transition lemma per kind of arm (skip, alias, emit with 0/1/2 renamed arguments, output); the 51 arms of the loop body are verified in 13 path-partitioned runs.',
     'assumptions': ['ssa_strict(parent tape) and choice_count == #choice clauses (SsaTape::new contract, bounded leg of C01)',
                     'the trace hypothesis tp (a decided choice selects an operand whose value equals the clause value bit for bit) is proved per clause by Kani and enumerated per tape by trace_vm/jit_trace; known findings: signed zero into Mix/Rand and NaN corners dropped by interval mul make an interval trace invalid at some points (known_findings.json)'],
@@ -144,7 +144,7 @@ PLAN['C20'] = {
     'technique': 'Kani full-domain harnesses for per-clause choice meaning and Choice bit algebra; Verus contracts for counts carried by simplify; bounded native contract runner for the evaluator loops and JIT traces',
     'level_text': 'Proved for all inputs (Kani, loop-free): every f32/Interval *_choice result is Left/Right/Both and is what the operand values imply; Both iff tie or NaN for min/max; and/or never Both on points; OR-ing into a cleared slot records exactly the clause choice. The per-tape clauses (one entry per clause, None iff all Both, JIT == VM) are bounded stand-ins because the interpreter loops and emitted code are outside verifier reach.',
     'level_note': 'Trusted: Kani/CBMC/CaDiCaL. Bounded only: trace length/order in the VM loops, JIT traces, output array shapes.',
-    'legs': [leg_kani('leaf'), leg_verus('simplify'), leg_bounded('interp_point'), leg_bounded('trace_vm'), leg_bounded('jit_trace'),
+    'legs': [leg_kani('leaf'), leg_verus('simplify'), leg_verus('vm'), leg_bounded('interp_point'), leg_bounded('trace_vm'), leg_bounded('jit_trace'),
              leg_bounded('interp_bulk'), leg_bounded('jit_bulk'), leg_bounded('reuse')],
     'explanation': 'Per-clause meaning is a complete proof over all 2^64 operand pairs; the tape-level statements are enumerated by the bounded runner.',
     'assumptions': ['tape-level clauses are bounded stand-ins (interp_point trace check, trace_vm, jit_trace)'],
@@ -156,7 +156,7 @@ PLAN['C11'] = {
     'technique': 'Verus total-mode proofs (every assert!/panic!/unwrap/index/overflow in alloc.rs, lru.rs, reg_tape.rs, simplify is an obligation); Kani full-domain totality harnesses for Interval operations; bounded native contract runner for the evaluators',
     'level_text': 'Proved: the compiler core (register allocation for N in 3..=255, simplify) cannot panic on well-formed tapes; Interval select/round operations return normally on ALL valid intervals including infinite bounds and the NaN interval (Kani, complete); add/sub/scale/neg are total on all valid intervals (Verus on the real text, under the float axioms: after the repair the obligation is monotonicity of one f32 operation, which CBMC cannot decide). The evaluator loops, the remaining Interval arithmetic and the JIT are bounded stand-ins.',
     'level_note': 'Trusted: Verus+Z3, Kani/CBMC. Not covered: stack exhaustion, allocation failure. Bounded only: interpreter/JIT evaluators on overflow grids, argument-error paths.',
-    'legs': [leg_verus('alloc'), leg_verus('simplify'), leg_verus('interval'), leg_kani('leaf'), leg_bounded('interp_interval'), leg_bounded('total'), leg_bounded('jit_interval_valid')],
+    'legs': [leg_verus('alloc'), leg_verus('simplify'), leg_verus('interval'), leg_verus('vm'), leg_kani('leaf'), leg_bounded('interp_interval'), leg_bounded('total'), leg_bounded('jit_interval_valid')],
     'cex': ['total', 'interp_interval', 'alloc_cex', 'simplify_sem'],
     'explanation': 'Totality of the integer state machines is a corollary of their total-mode proofs; the genuine defect found here (Interval add/sub/scale panicking on NaN bounds) is repaired in /repo (fix: 081f714).',
     'assumptions': ['sqrt/square/recip/mul/div/trig totality of Interval: bounded leg only (CBMC models sqrtf/powi nondeterministically; one f32 division does not finish)'],
@@ -168,7 +168,7 @@ PLAN['C03'] = {
     'technique': 'Kani full-domain harnesses for local interval enclosure of comparison/select operations; bounded native contract runner (interval interpreter vs reference point semantics) for arithmetic and transcendental operations',
     'level_text': 'Proved for all intervals and all member points (Kani, bit-precise, loop-free): min, max, and, or, not, compare, abs, neg enclose the point result, with the NaN-interval convention. Proved in Verus on the real text under the stated float axioms (monotone correctly-rounded + - *, NaN propagation, total order): Add, Sub, Mul<f32>, Neg are total on all valid intervals and enclose exactly (0 ulp). The remaining arithmetic and transcendental operations, the interpreter dispatch and the JIT are bounded stand-ins on a stated grid.',
     'level_note': 'Trusted: Kani/CBMC. Bounded only: add, sub, mul, div, square, sqrt, recip, floor/ceil/round, exp, ln, trig, atan2, rem_euclid, mix, rand; interpreter dispatch; JIT. Out of scope: wgsl shader.',
-    'legs': [leg_kani('leaf'), leg_verus('interval'), leg_bounded('interp_interval'), leg_bounded('jit_interval')],
+    'legs': [leg_kani('leaf'), leg_verus('interval'), leg_verus('vm'), leg_bounded('interp_interval'), leg_bounded('jit_interval')],
     'cex': ['interp_interval'],
     'explanation': 'The local obligation per opcode is exactly the observation the property names: a in A, b in B => op(a,b) in OP(A,B) unless NaN.',
     'assumptions': ['monotonicity of correctly rounded f32 arithmetic and libm functions is exercised on a grid only'],
@@ -203,7 +203,7 @@ PLAN['C10'] = {
     'technique': 'contract-based deductive verification (Verus): RegisterAllocator::reset establishes exactly the abstract view of new (`fresh`), simplify\'s contract is independent of the previous workspace/tape contents, the allocator theorem holds from arbitrary initial slot contents; bounded native contract runner for evaluator/storage reuse',
     'level_text': 'Proved unbounded: reset(size, tape) yields the same complete abstract view as new(size) whatever the allocator held before (allocations, registers, LRU order, spare lists, empty tape, slot_count 0); VmWorkspace::reset likewise; simplify\'s proved postconditions mention neither old(workspace) nor the recycled tape; stale register/memory contents are unobservable because the C01 theorem is quantified over all initial slot contents. Evaluator objects, JIT Mmap reuse and Function::recycle are bounded stand-ins (all ordered pairs of 12 functions x 3 backends x 4 evaluator kinds).',
     'level_note': 'Trusted: Verus+Z3; assume_specification for slice::fill and mem::take; vstd specs of Vec::resize/clear. Bounded only: TracingVmEval/BulkVmEval::resize_slots, JIT storage growth, RenderHandle.',
-    'legs': [leg_verus('alloc'), leg_verus('simplify'), leg_bounded('reuse')],
+    'legs': [leg_verus('alloc'), leg_verus('simplify'), leg_verus('vm'), leg_bounded('reuse')],
     'explanation': 'reset == new on the view is the postcondition `fresh(size)` shared by both functions; see units/alloc/spec.py',
     'assumptions': ['evaluator-object reuse is enumerated, not proved'],
     'cex': ['reuse'],
